@@ -174,3 +174,70 @@ class ScaleToAv(Contract):
             out['reddened(%s)' % nm] = [q.unit.same_dims(old.attr(s, nm).unit),
                                         c.forall(list(T.shape), (lambda G, T, sc: lambda i, w: G[i, w] * sc == T[i, w] * sym.mathfn('pow10', a.av * K(w)))(G, T, sc), 'reddened')]
         return out
+
+
+# ---------------------------------------------------------------------------------------------
+# SED.read: unit conversion + ordering of the spectral axis (C12, C15)
+# ---------------------------------------------------------------------------------------------
+
+from .fitsmodel import hdu, hdulist
+from .helpers import FLUX_UNITS, to_ref, from_ref
+
+
+@contract
+class SedRead(Contract):
+    """SED.read(filename, unit_flux, order): every (aperture, wavelength) cell of the file comes back
+    converted with the frequency OF THAT CELL, and the spectral axis of wavelengths, frequencies,
+    fluxes and errors is either left as stored or reversed -- all four together -- so that the
+    requested order holds."""
+    name = SED + '.read'
+    properties = ('C12', 'C15')
+    variants = ('mJy->erg_cm2_s/nu', 'mJy->erg_cm2_s/wav', 'erg_cm2_s->mJy/wav', 'mJy->mJy/nu')
+
+    def setup(self, c, variant):
+        from sedvc.interp import ClassVal
+        units_, order = variant.split('/')
+        ua, ub = [FLUX_UNITS[x] for x in units_.split('->')]
+        A, W = c.int('n_ap'), c.int('n_wav')
+        c.assume([A >= 1, W >= 2])
+        self.file = dict(wav=c.array('file_wav', (W,)), nu=c.array('file_nu', (W,)), ap=c.array('file_ap', (A,)),
+                         flux=c.array('file_flux', (A, W)), err=c.array('file_err', (A, W)), ua=ua, dist=c.real('file_dist_cm'))
+        f = self.file
+        hl = hdulist(c, [hdu(c, header={'MODEL': Opaque('str', 'name'), 'DISTANCE': f['dist']}),
+                         hdu(c, fields={'WAVELENGTH': f['wav'], 'FREQUENCY': f['nu']}, units=[U['micron'], U['Hz']]),
+                         hdu(c, fields={'APERTURE': f['ap']}, units=[U['au']]),
+                         hdu(c, fields={'TOTAL_FLUX': f['flux'], 'TOTAL_FLUX_ERR': f['err']}, units=[ua, ua])])
+        c.set('__hdulist__', hl)
+        c.interp.ext['astropy.io.fits.open'] = lambda interp, st, fr, args, kw: hl
+        c.interp.ext['os.path.exists'] = lambda interp, st, fr, args, kw: True
+        ci = c.interp.repo.find_class(SED)
+        return dict(cls=ClassVal(ci), filename='x_sed.fits', unit_wav=U['micron'], unit_freq=U['Hz'], unit_flux=ub, order=order)
+
+    def requires(self, c, a):
+        f = self.file
+        nu, wav = c.A(f['nu']), c.A(f['wav'])
+        return {'positive': [c.forall(nu.n, lambda k: band(nu[k] > 0, wav[k] > 0), 'nu,wav>0'), f['dist'] > 0],
+                # the stored axis is monotone, and wavelength decreases when frequency increases
+                'consistent_axis': c.forall([nu.n, nu.n], lambda k, l: implies(k < l, band(bnot(nu[k] == nu[l]), (nu[k] < nu[l]) == (wav[k] > wav[l]))), 'axis')}
+
+    def ensures(self, c, a, result, old):
+        f = self.file
+        nu, wav, F, E = c.A(f['nu']), c.A(f['wav']), c.A(f['flux']), c.A(f['err'])
+        n = nu.n
+        r_nu, r_wav = c.attr(result, '_nu'), c.attr(result, '_wav')
+        RN, RW = c.A(r_nu), c.A(r_wav)
+        # reversed iff the stored order is not the requested one
+        rev = (nu[0] > nu[n - 1]) if a.order == 'nu' else (wav[0] > wav[n - 1])
+        src = lambda k: ite(rev, n - 1 - k, k)
+        d_m = f['dist'] * U['cm'].scale
+        out = {'axis_lengths': band(compare('==', RN.n, n), compare('==', RW.n, n)),
+               'wavelengths': c.forall(n, lambda k: RW[k] * r_wav.unit.scale == wav[src(k)] * U['micron'].scale, 'wav'),
+               'frequencies': c.forall(n, lambda k: RN[k] * r_nu.unit.scale == nu[src(k)] * U['Hz'].scale, 'nu'),
+               'requested_order': (RN[0] <= RN[n - 1]) if a.order == 'nu' else (RW[0] <= RW[n - 1])}
+        for nm, T in (('_flux', F), ('_error', E)):
+            q = c.attr(result, nm)
+            G = c.A(q)
+            out['cells(%s)' % nm] = [compare('==', G.shape[0], T.shape[0]), compare('==', G.shape[1], n),
+                                     c.forall([T.shape[0], n], (lambda G, T, q: lambda i, k: G[i, k] * q.unit.scale / a.unit_flux.scale ==
+                                                                from_ref(to_ref(T[i, src(k)], f['ua'], nu[src(k)], d_m), a.unit_flux, nu[src(k)], d_m))(G, T, q), 'cells')]
+        return out
